@@ -29,6 +29,8 @@ var c15Fillers = []struct{ name, text string }{
 	// comment TEXT that looks like comment syntax: a block comment ends at the first `)--` whatever it mentions
 	{"block-comment-mentioning-an-opener", " --( see --( here )-- "}, {"block-comment-of-dashes-and-parentheses", " --(-- ( ) - -- )-- "},
 	{"empty-block-comment", " --()-- "}, {"line-comment-mentioning-block-syntax", " -- --( not a block )-- \n"},
+	// comment text that is not valid UTF-8 (a Latin-1 source file) is comment text all the same
+	{"line-comment-with-latin1-bytes", " -- caf\xe9 na\xefve \xff\n"}, {"block-comment-with-latin1-bytes", " --( caf\xe9 \xfe\xff \xc3 )-- "},
 }
 
 // White_Space code points beyond ASCII. Whether they separate tokens depends on how \s is read (ASCII only, or
@@ -161,7 +163,7 @@ func C15(r *drv.Run) {
 	if !quick(r) {
 		ngen = 4000
 	}
-	r.Rule = "valid programs as token lists (hand corpus covering every production incl. process statements/expressions, amount clauses, named loops, ranges, caseless, regex literals; repository examples; generated programs) x EVERY gap between adjacent tokens x {newline, tab run, CRLF, line comment, block comment glued, block comment with blanks, multi-line block comment, two line comments, two glued block comments, block then line comment, three comments mixed with blanks, vertical tab, form feed, block comments whose text mentions `--(` or consists of dashes and parentheses, the empty block comment, a line comment mentioning block syntax} and - where the neighbours are not both words - removal of the whitespace; every keyword individually and all together in UPPER and MiXeD case; `function` written for its alias `transform`; leading/trailing layout; the same text, and its CR LF form, read from a file through CompileFile; a 5 MiB gap (blank lines, one block comment, line comments) between the commands of two programs, through CompileFile and through Compile; eight White_Space code points beyond ASCII (U+0085, U+00A0, U+1680, U+2000, U+2003, U+2028, U+205F, U+3000) in one gap per program, judged as a group: all of them separate tokens or none does. Oracle (metamorphic): variant accepted iff the single-blank original is, reflect.DeepEqual + canonical-dump equality of the syntax trees (hook H6), identical Run results on 3 texts (a text on which the original alone needs more than 4 000 VM steps is dropped for its variants, which run under a budget of 30 000). Non-trivial = every distinct variant whose three verdicts agreed; distinct by variant source."
+	r.Rule = "valid programs as token lists (hand corpus covering every production incl. process statements/expressions, amount clauses, named loops, ranges, caseless, regex literals; repository examples; generated programs) x EVERY gap between adjacent tokens x {newline, tab run, CRLF, line comment, block comment glued, block comment with blanks, multi-line block comment, two line comments, two glued block comments, block then line comment, three comments mixed with blanks, vertical tab, form feed, block comments whose text mentions `--(` or consists of dashes and parentheses, the empty block comment, a line comment mentioning block syntax, line and block comments holding bytes that are not valid UTF-8} and - where the neighbours are not both words - removal of the whitespace; every keyword individually and all together in UPPER and MiXeD case; `function` written for its alias `transform`; leading/trailing layout; the same text, and its CR LF form, read from a file through CompileFile; a 5 MiB gap (blank lines, one block comment, line comments) between the commands of two programs, through CompileFile and through Compile; eight White_Space code points beyond ASCII (U+0085, U+00A0, U+1680, U+2000, U+2003, U+2028, U+205F, U+3000) in one gap per program, judged as a group: all of them separate tokens or none does. Oracle (metamorphic): variant accepted iff the single-blank original is, reflect.DeepEqual + canonical-dump equality of the syntax trees (hook H6), identical Run results on 3 texts (a text on which the original alone needs more than 4 000 VM steps is dropped for its variants, which run under a budget of 30 000). Non-trivial = every distinct variant whose three verdicts agreed; distinct by variant source."
 	r.Assumptions = []string{
 		"a block comment glued directly after '-' is not a layout change (it lexes as a different token sequence) and is not generated",
 		"the harness tokenizer's token boundaries are those of the documented lexing rules; it is only applied to programs known to be valid",
